@@ -101,6 +101,26 @@ def law_event(K, eid, args):
     return ev
 
 
+def law3_event(K, eid, args):
+    """C03: the products of x and y as the library computed them, recorded together."""
+    x, y = args
+    ev = {'id': eid, 'kind': 'law3', 'op': 'law3', 'raised': '', 'params': []}
+    fields = ('x', 'y', 'xy', 'yx', 'wedge', 'ip', 'lc', 'rc', 'sp', 'cp', 'acp')
+    try:
+        names = {'x': x, 'y': y, 'xy': x * y, 'yx': y * x, 'wedge': x ^ y, 'ip': x | y, 'lc': x.lc(y), 'rc': x.rc(y), 'sp': x.sp(y),
+                 'cp': x.cp(y), 'acp': x.acp(y)}
+    except Exception as e:   # noqa: BLE001
+        ev['raised'] = type(e).__name__
+        names = {k: x for k in fields}
+    ring, enc = K.encode_mvs(list(names.values()))
+    ev['ring'] = ring
+    for k, e_ in zip(names, enc):
+        ev[k] = e_
+    ev['args'] = [ev['x'], ev['y']]
+    ev['res'] = ev['xy']
+    return ev
+
+
 def run_job(job):
     import kdriver as K
     u, opts = job['u'], job.get('opts', {})
@@ -124,8 +144,8 @@ def run_job(job):
         args = [K.operand(alg, spec, n + 1) for n, spec in enumerate(keylists)]
         signal.alarm(budget)
         try:
-            if op == 'law':
-                ev = law_event(K, eid, args)
+            if op in ('law', 'law3'):
+                ev = law_event(K, eid, args) if op == 'law' else law3_event(K, eid, args)
                 signal.alarm(0)
                 events.append(ev)
                 continue
